@@ -7,6 +7,7 @@ import (
 	"os"
 	"runtime"
 	"strings"
+	"sync/atomic"
 	"time"
 
 	"github.com/prometheus/prometheus/promql"
@@ -91,6 +92,7 @@ func runFaulted(c *core.Case, eng Engine, st *memstore.Store, faults []core.Faul
 	}
 	defer cancel()
 	var qry promql.Query
+	var qryShared atomic.Value // the query, for the goroutine that releases a blocked storage
 	sess.Cancel = func() {
 		hasQ := false
 		for _, f := range faults {
@@ -109,7 +111,8 @@ func runFaulted(c *core.Case, eng Engine, st *memstore.Store, faults []core.Faul
 	finished := make(chan struct{})
 	defer close(finished)
 	for _, f := range faults {
-		if f.Kind == "block" {
+		if f.Kind == "block" || f.Kind == "blockq" || f.Kind == "blockclose" {
+			kind := f.Kind
 			go func() {
 				for i := 0; i < 20000; i++ {
 					if sess.AnyFired() {
@@ -126,7 +129,17 @@ func runFaulted(c *core.Case, eng Engine, st *memstore.Store, faults []core.Faul
 					return
 				case <-time.After(300 * time.Microsecond):
 				}
-				cancel()
+				// the storage is blocked inside Exec; the release comes from the context,
+				// or from Cancel() / Close() of the query called on this goroutine
+				q, _ := qryShared.Load().(promql.Query)
+				switch {
+				case kind == "blockq" && q != nil:
+					q.Cancel()
+				case kind == "blockclose" && q != nil:
+					q.Close()
+				default:
+					cancel()
+				}
 			}()
 			break
 		}
@@ -138,6 +151,7 @@ func runFaulted(c *core.Case, eng Engine, st *memstore.Store, faults []core.Faul
 		out.opened, out.closes = sess.QuerierStats()
 		return out
 	}
+	qryShared.Store(qry)
 	done := make(chan *oracle.Res, 1)
 	t0 := time.Now()
 	go func() {
@@ -305,6 +319,9 @@ func sweep(c *core.Case, kinds []string, classes []string, judge func(kind strin
 			if kind == "blockdl" {
 				kcap = kcap / 4 // every position waits for the deadline
 			}
+			if kind == "blockq" || kind == "blockclose" {
+				kcap = kcap / 3
+			}
 			for _, k := range kList(n, kcap, uint64(c.Hash())) {
 				fs := []core.Fault{{Kind: kind, Class: class, K: k}}
 				if c.Fault != nil && c.Fault.Kind == "pair" {
@@ -403,7 +420,15 @@ func init() {
 		tol := tolOf(c)
 		eng2 := NewEngine(c.Lookback, c.Opt, false)
 		_ = eng2
-		return sweep(c, []string{"panic"}, []string{"any", "labels", "iterator", "seek"}, func(kind string, f []core.Fault, base, o faultOutcome) string {
+		// the panic value is a runtime.Error, a string or a plain error (one kind per case)
+		pk := "panic"
+		switch {
+		case strings.Contains(c.Note, "panic=str"):
+			pk = "panicstr"
+		case strings.Contains(c.Note, "panic=err"):
+			pk = "panicerr"
+		}
+		return sweep(c, []string{pk}, []string{"any", "labels", "iterator", "seek"}, func(kind string, f []core.Fault, base, o faultOutcome) string {
 			if o.res != nil && o.res.Err != nil && strings.HasPrefix(o.res.Err.Error(), "PANIC-ESCAPED") {
 				return "panic escaped from Exec: " + o.res.Err.Error()
 			}
@@ -475,7 +500,7 @@ func init() {
 	// C14: cancellation is prompt and final; no hangs, no leaks.
 	register("C14", func(c *core.Case) core.Verdict {
 		tol := tolOf(c)
-		kinds := []string{"cancel", "block", "cancelquery", "blockdl"}
+		kinds := []string{"cancel", "block", "cancelquery", "blockdl", "blockq", "blockclose"}
 		v := sweep(c, kinds, nil, func(kind string, f []core.Fault, base, o faultOutcome) string {
 			if o.res.Err != nil && strings.HasPrefix(o.res.Err.Error(), "PANIC-ESCAPED") {
 				return "panic escaped from Exec: " + o.res.Err.Error()
